@@ -191,13 +191,16 @@ func c17history(t *testing.T, out *vharness.Out, rng *rand.Rand, kind string) {
 		}
 		reg()
 		rot := GenerateRendezvousPointForPeriod([]byte(p.topic), p.seed, time.Unix(per0, 0))
-		ops = append(ops, fmt.Sprintf("ORot %s (%s, %s)", pb(b), c17bytes(append([]byte(p.topic), p.seed...)), c17z(per0)))
-		q, err := peers[b].PointForRawRotation(rot)
-		obs = append(obs, c17obs(q, err, pairs, nowSec(), interval))
-		if err != nil {
-			fail("own previous rotation value refused during the grace period", fmt.Sprintf("topic %q period %d at unix %d (interval %ds), after the same topic and seed were registered again: %v", p.topic, per0, nowSec(), interval, err))
-		} else if q.Topic() != p.topic {
-			fail("rotation value mapped to another topic", fmt.Sprintf("topic %q mapped to %q", p.topic, q.Topic()))
+		// presented once, or several times in a row (every head exchange of the grace period carries it)
+		for rep, reps := 0, 1+rng.Intn(4); rep < reps; rep++ {
+			ops = append(ops, fmt.Sprintf("ORot %s (%s, %s)", pb(b), c17bytes(append([]byte(p.topic), p.seed...)), c17z(per0)))
+			q, err := peers[b].PointForRawRotation(rot)
+			obs = append(obs, c17obs(q, err, pairs, nowSec(), interval))
+			if err != nil {
+				fail("own previous rotation value refused during the grace period", fmt.Sprintf("topic %q period %d at unix %d (interval %ds), after the same topic and seed were registered again, presentation %d: %v", p.topic, per0, nowSec(), interval, rep+1, err))
+			} else if q.Topic() != p.topic {
+				fail("rotation value mapped to another topic", fmt.Sprintf("topic %q mapped to %q", p.topic, q.Topic()))
+			}
 		}
 		nontrivial = true
 	}
